@@ -8,6 +8,7 @@ from vmon import oracle as orc
 from vmon.checks import tokcommon as tc
 from vmon.checks.common import obs, fail
 
+SCALE = True   # worker: every fortieth case (or SCALE_EVERY-th) is blown up by scale_case below
 PROP = "C03"
 MONITORS = ["tokenise", "bar_inv"]
 ALSO = ()
@@ -26,6 +27,18 @@ FLOORS = {"quick": {"c03.partitions_compared": 6000, "c03.state_checked": 15000,
           "thorough": {"c03.partitions_compared": 300000, "#c03.flags.": 16}}
 GRID = lambda x: x % 4 == 0 or x % 6 == 0  # noqa: E731
 
+
+def scale_case(case, i):
+    """many sparsely filled bars: silences of eight and more bars inside one call, starting and ending in the middle of bars"""
+    import random
+    r = random.Random(f"c03-big:{i}")
+    if case["route"] == "raw":
+        return
+    cfg = case["cfg"]
+    pc = gen.piece(r, ntracks=cfg["tracks"], lens=gen.DEFAULT_NOTE_VALUES, ongrid=GRID, ragged=True, keys=False, cross_bars=False, meta=0,
+                   nseg=(1, 2), nbars=(9, 16), max_notes=3, sigs=[(4, 4), (3, 4), (6, 8), (8, 8)], pitches=(60, 62, 72))
+    case["piece"] = pc
+    case["share_bars"] = False
 
 def make_case(rng, i, tier):
     cfg = tc.rand_cfg(rng, i=i % 16)
